@@ -683,12 +683,26 @@ V({
     "title": "sized_helpers: push_adt_sized_conditions, push_tuple_sized_conditions (chalk-solve/src/clauses/builtin_traits/sized.rs)",
     "template": "v29_sized_helpers.rs",
     "assumptions": [
-        "V29: last_field_of_struct (closures over binders) and needs_impl_for_tys (iterator map) are abstract callees; a substitution's argument list is an abstract sequence and `Substitution::iter(..).last()` returns its last element (std's Iterator::last on a slice iterator); std::iter::once / Option::into_iter per their documentation",
+        "V29: last_field_of_struct (its own text is verified in V33 against 'last field of the struct, arguments substituted') and needs_impl_for_tys (iterator map) are abstract callees; a substitution's argument list is an abstract sequence and `Substitution::iter(..).last()` returns its last element (std's Iterator::last on a slice iterator); std::iter::once / Option::into_iter per their documentation",
         "V29: invariant of TyKind::Tuple(arity, substitution): exactly `arity` arguments, all of them types (precondition; the code unwraps)",
         "V29: RustIrDatabase::adt_datum (neighbourhood API, not called by the pinned text) returns an uninterpreted datum per ADT id; AdtDatum / AdtFlags / AdtKind are the extracted definitions, AdtDatumBound is opaque",
         "V29: a change that filters the iterator with an adaptor (Option::filter, Iterator::filter) makes the unit UNDECIDED, not a violation",
     ],
     "trusted": ["chalk-ir Substitution (abstract)", "builtin_traits::{last_field_of_struct, needs_impl_for_tys}"],
+})
+
+# -------------------------------------------------------------------------- V33
+V({
+    "id": "V33",
+    "title": "last_field: builtin_traits::last_field_of_struct (chalk-solve/src/clauses/builtin_traits.rs) — the helper V11 / V29 assume",
+    "template": "v33_last_field.rs",
+    "assumptions": [
+        "V33: chalk-ir Binders is abstract (skip() = the value under the binders, vars() = the variables bound): map_ref / filter_map run the closure once on that value and keep the variables, substitute is an uninterpreted function of (variables, value, arguments)",
+        "V33: the two closures are annotated in place (edit I5: parameter types, result name, ensures) - Verus proves each closure body against its ensures; std's slice::last / Option::cloned per vstd; derived Clone of Ty returns an equal value",
+        "V33: precondition = invariant of the datum: an ADT of kind Struct has exactly one variant (lowering, rustc); RustIrDatabase::adt_datum returns an uninterpreted datum per id",
+        "V33: a change that restructures the closures (none, other parameter names, block bodies) makes the unit UNDECIDED, not a violation",
+    ],
+    "trusted": ["chalk-ir Binders::{map_ref, filter_map, substitute} (abstract)"],
 })
 
 # -------------------------------------------------------------------------- V30
